@@ -7,6 +7,7 @@ import Mathlib.Tactic.Linarith
 import Mathlib.Tactic.Positivity
 import Mathlib.Algebra.Order.Floor.Ring
 import Resvg.Writer.Num
+import Resvg.Generated.WriterTables
 import Resvg.Lemmas.Basic
 
 namespace Resvg.Props.C08
@@ -69,6 +70,33 @@ theorem C08_roundAt_close (r : Rat → Rat) (ε : Rat) (hε : 0 ≤ ε)
     linarith
   linarith
 
+theorem roundHalfAway_int (k : Int) : roundHalfAway (k : Rat) = k := by
+  unfold roundHalfAway
+  by_cases h : (0 : Rat) ≤ k
+  · simp only [h, if_true, Lemmas.rat_floor_eq]
+    have h1 : ⌊(k : ℚ) + 1 / 2⌋ = k := by
+      rw [Int.floor_eq_iff]; constructor <;> push_cast <;> linarith
+    exact h1
+  · simp only [h, if_false, Lemmas.rat_floor_eq]
+    have h1 : ⌊-(k : ℚ) + 1 / 2⌋ = -k := by
+      rw [Int.floor_eq_iff]; constructor <;> push_cast <;> linarith
+    rw [h1]; ring
+
+/-- **a second round trip changes nothing further (exact arithmetic)**: a value that already has at
+    most the chosen number of decimals (`x = k / P`) is written as itself, so what the first
+    round trip produced is a fixed point of the second. -/
+theorem C08_fixed_point (P : Rat) (hP : 0 < P) (k : Int) : roundAt id P ((k : Rat) / P) = (k : Rat) / P := by
+  unfold roundAt
+  simp only [id]
+  have : (k : Rat) / P * P = k := by field_simp
+  rw [this, roundHalfAway_int]
+
+theorem C08_second_round_trip_exact (P : Rat) (hP : 0 < P) (x : Rat) :
+    roundAt id P (roundAt id P x) = roundAt id P x := by
+  unfold roundAt
+  simp only [id]
+  exact C08_fixed_point P hP _
+
 /-- integers inside the i32 range are written exactly -/
 theorem C08_integers_exact (r : Rat → Rat) (p : Nat) (k : Int) (hk : -2147483648 ≤ k ∧ k ≤ 2147483647) :
     writeNumValue r p (k : Rat) = k := by
@@ -98,5 +126,21 @@ theorem C08_integers_exact (r : Rat → Rat) (p : Nat) (k : Int) (hk : -21474836
 theorem C08_large_integer_saturates : writeNumValue id 8 3000000000 = 2147483647 := by decide +kernel
 
 example : roundAt id 100 (314159 / 100000) = 314 / 100 := by decide +kernel
+
+/-! ### the table of `write_num`, regenerated from writer.rs on every run -/
+
+/-- the table read off the source is the powers of ten `10^0 … 10^12`, and the index is clamped to it:
+    so the model's `powVec` *is* the table lookup of the code, for every precision. A table with a
+    missing, repeated or mistyped entry, or an unclamped index, breaks this theorem. -/
+theorem C08_pow_table_is_model (p : Nat) :
+    Generated.powVecIndexClamped = true ∧
+    powVec id p = ((Generated.powVecTable.getD (min p (Generated.powVecTable.length - 1)) 0 : Nat) : Rat) := by
+  refine ⟨by decide, ?_⟩
+  have hlen : Generated.powVecTable.length - 1 = 12 := by decide
+  rw [hlen]
+  have hk : min p 12 ≤ 12 := Nat.min_le_right _ _
+  have htab : ∀ k, k ≤ 12 → Generated.powVecTable.getD k 0 = 10 ^ k := by decide +kernel
+  rw [htab _ hk]
+  simp [powVec]
 
 end Resvg.Props.C08
